@@ -51,7 +51,7 @@ def enc(v, fields=None, depth=0):
     if isinstance(v, (bytes, bytearray)):
         return _rec("bytes", bytes(v).hex())
     if isinstance(v, decimal.Decimal):
-        return _rec("decimal", str(v))
+        return _rec("decimal", str(v), cls="Decimal")
     if isinstance(v, (list, tuple)):
         return _rec("list" if isinstance(v, list) else "tuple", items=[enc(x, fields, depth + 1) for x in v])
     if isinstance(v, (set, frozenset)):
